@@ -65,7 +65,7 @@ func c08Scenarios(tier string) []*explore.Scenario {
 						g := &genStream{quick: tier == "quick", ctlKinds: c08CtlKinds, maxCtl: 3}
 						g.addMessage(x, "m0.", readerIsServer, ek, si, maxFrags, x.Pick, false)
 						if x.Choose(2, "m1.more") == 1 {
-							g.addMessage(x, "m1.", readerIsServer, ek, x.Choose(len(c03Sizes), "m1.size"), maxFrags, x.Choose, false)
+							g.addMessage(x, "m1.", readerIsServer, ek, (3+x.Choose(len(c03Sizes), "m1.size"))%len(c03Sizes), maxFrags, x.Choose, false)
 						}
 						readStream(x, "C08", g, wsref.EncodeAll(g.frames), readerIsServer, ek.comp, false)
 					},
